@@ -415,9 +415,18 @@ def _text_cases(ctx):
                         yield f"scalar:{dt}:{on}:{s!r}:{'array-op-scalar' if side == 0 else 'scalar-op-array'}", e
     # fill values / typed constants of every kind
     for dt in ("float32", "float64", "int32", "bool", "complex64"):
-        for v in (0, 1, 2, -3, 1.5, float("nan")):
+        for v in (0, 1, 2, -3, 1.5, float("nan"), float("inf"), float("-inf"), np.float32("nan"), np.float64("nan"),
+                  np.float32("inf"), np.float64("-inf"), np.float32(2.5), np.int8(-3), True, 1.0, 0.0, -0.0):
             try:
+                with np.errstate(all="ignore"):
+                    np.full((1,), v, dtype=np.dtype(dt))   # no NumPy meaning (nan as an integer): not a case
                 yield f"full:{dt}:{v!r}", pt.full((3, 2), v, dtype=np.dtype(dt))
+            except Exception:   # noqa: BLE001
+                continue
+        for v in (float("nan"), np.float32("nan"), float("-inf"), np.float32("inf"), 2.5):
+            try:
+                yield f"full-default-dtype:{v!r}", pt.full((2,), v)
+                yield f"full-0d:{v!r}", pt.full((), v)
             except Exception:   # noqa: BLE001
                 continue
         yield f"zeros:{dt}", pt.zeros((2, 3), dtype=np.dtype(dt))
@@ -554,12 +563,26 @@ def batch_text_model(ctx):
     unmodelled: dict[str, int] = {}
     in_fragment = 0
     outside: dict[str, int] = {}
+    crashes: dict[str, int] = {}
     for (label, expr, bp, real), a in zip(cases, answers):
         fam = label.split(":")[0]
         fc = fam_counts.setdefault(fam, {"same-text": 0, "both-refuse": 0, "unmodelled": 0, "disagree": 0})
         m = pygenser.parse_model(a)
         if m[0] == "error":
             ctx.broken.append(f"pygen-driver:{a[:60]}")
+            continue
+        if real[0] == "crash":
+            # the real generator fails with an error that is not one of the documented refusals: a violation
+            counts["real-crash"] = counts.get("real-crash", 0) + 1
+            fc["real-crash"] = fc.get("real-crash", 0) + 1
+            crashes[f"{label}: {real[1]}"[:160]] = 1
+            dis += 1
+            ctx.violation(f"pygen-text:generate-crash:{real[1].split(':')[0]}",
+                          f"{label}: generate_numpy_like fails with {real[1]} — neither a program nor a documented "
+                          f"refusal (the model of the generator answers: {m[0]}"
+                          f"{' ' + m[1] if m[0] != 'program' else ''})",
+                          {"check": "pygen-text", "case": label, "real": list(real),
+                           "model": m[1:3] if m[0] == "program" else m[1:]})
             continue
         if m[0] == "unmodelled":
             counts["unmodelled"] += 1
@@ -608,6 +631,7 @@ def batch_text_model(ctx):
     ctx.note_batch("lean-generator-model-vs-real-text", total, dis, exhaustive=False, counts=counts,
                    per_family=fam_counts, unmodelled_reasons=unmodelled,
                    modelled_fraction=round(1 - counts["unmodelled"] / max(total, 1), 4),
+                   real_generator_crashes=sorted(crashes),
                    programs_in_proved_fragment=in_fragment,
                    proved_fragment_fraction=round(in_fragment / max(counts["same-text"], 1), 4),
                    outside_fragment_node_kinds=dict(sorted(outside.items(), key=lambda kv: -kv[1])))
